@@ -363,10 +363,23 @@ func (x *Exec) opSleep(st *Step) {
 	for _, c := range x.w.clients {
 		c.freshChallenge = false
 	}
+	quiet := x.w.closed && x.w.callbacksActive() == 0
+	logBefore, evBefore := x.w.log.Calls.Load(), x.eventCount()
 	time.Sleep(d)
 	x.settle()
 	o := x.observe()
 	x.checkWire(o, nil, nil, nil, fmt.Sprintf("sleep of %v", d))
+	if !x.stop && quiet && (x.w.log.Calls.Load() != logBefore || x.eventCount() != evBefore) {
+		x.fail([]string{"C15"}, "activity-after-close", "the server was closed and idle, yet during a sleep of %v it logged %d more lines and delivered %d more lifecycle events (a timer or goroutine survived Close); last log lines: %v", d, x.w.log.Calls.Load()-logBefore, x.eventCount()-evBefore, tailStr(x.w.log.Lines(), 3))
+	}
+}
+
+func tailStr(l []string, n int) []string {
+	if len(l) > n {
+		return l[len(l)-n:]
+	}
+
+	return l
 }
 
 func (x *Exec) opRelayError(st *Step) {
